@@ -1,0 +1,24 @@
+//go:build verif
+
+package iosizer
+
+// Contracts for GoVC (see /verif/DESIGN.md). Comment-only: compiles to nothing.
+// C20: total equals the sum (mod 2^64) of the positive byte counts Read/Write returned.
+//
+//@ func (*SizeReadWriter).Read
+//@   props C20
+//@   modifies elems(byte), ghost:calls, atomic:Uint64
+//@   ensures count: s.total.v == (old(s.total.v) + ite(result0 > 0, result0, 0)) % 18446744073709551616
+//@   ensures nilrd: old(s.rdr) == nil ==> result0 == 0 && result1 == io.EOF
+//@   ensures pass: old(s.rdr) != nil ==> calls(s.rdr) == old(calls(s.rdr)) + 1
+//
+//@ func (*SizeReadWriter).Write
+//@   props C20
+//@   modifies ghost:calls, atomic:Uint64
+//@   ensures count: s.total.v == (old(s.total.v) + ite(result0 > 0, result0, 0)) % 18446744073709551616
+//@   ensures nilwr: old(s.wtr) == nil ==> result0 == 0 && result1 == io.EOF
+//@   ensures pass: old(s.wtr) != nil ==> calls(s.wtr) == old(calls(s.wtr)) + 1
+//
+//@ func (*SizeReadWriter).TotalSize
+//@   props C20
+//@   ensures result == s.total.v
